@@ -50,7 +50,7 @@ pub fn run(rep: &mut Report, thorough: bool) {
     crate::util::install_quiet_panic_hook();
     rep.rule = "a pattern mapping fenced by a PROT_NONE mapping on one side and an unmapped page on the other, target suspended through the real suspend_threads; for each of the three strategies (forced through MemReader::for_*): EXHAUSTIVE small grid (every end distance 0..16 x every length 1..40 at the mapping end, and every start distance 0..16 x length 1..40 at the mapping start), sampled large ranges (4095,4096,4097,65535,65536 at all alignments mod 8), ranges crossing the end by 1..4096 bytes, ranges starting in the fence; both read() and read_to_vec(). Oracle: address-derived pattern. distinct = hash(strategy, start, length); non-trivial = every case".into();
     let mut rng = Rng::new(rep.seed.wrapping_mul(171_717));
-    let ntargets = if thorough { 6 } else { 2 };
+    let ntargets = if thorough { 48 } else { 2 };
     for ti in 0..ntargets {
         let mut b = Builder::new();
         // layout: [PROT_NONE 2 pages][pattern 17+ pages][unmapped]  or mirrored
